@@ -135,8 +135,8 @@ static void dispose(void) {
 
 /* returns 1 on `ioend` inside the callback */
 static int do_line(char* line) {
-  char* w[64]; int n = 0, i;
-  for (char* t = strtok(line, " \n"); t && n < 64; t = strtok(NULL, " \n")) w[n++] = t;
+  char* w[160]; int n = 0, i;
+  for (char* t = strtok(line, " \n"); t && n < 160; t = strtok(NULL, " \n")) w[n++] = t;
   if (n == 0) return 0;
   if (!strcmp(w[0], "init") && n == 3 && !in_cb) {
     int fd;
@@ -176,8 +176,8 @@ static int do_line(char* line) {
   } else if (!strcmp(w[0], "accept") && n == 3) {
     show(do_accept(w[1][0]));
   } else if (!strcmp(w[0], "recv") && n >= 2) {
-    union { struct cmsghdr h; char buf[CMSG_SPACE(sizeof(int) * 64)]; } c;
-    struct msghdr msg; int fds[64]; int k = n - 2, r = 0;
+    union { struct cmsghdr h; char buf[CMSG_SPACE(sizeof(int) * 160)]; } c;
+    struct msghdr msg; int fds[160]; int k = n - 2, r = 0;
     if (!role_listen && !srv_closed) {
       memset(&msg, 0, sizeof msg); memset(&c, 0, sizeof c);
       for (i = 0; i < k; i++) fds[i] = FAKE + atoi(w[2 + i]);
